@@ -4,6 +4,7 @@
 import BB.Proofs.Element
 import BB.Proofs.G2Element
 import BB.Model.Sequence
+import BB.Proofs.G11Elem
 
 namespace BB.C06
 open BB BB.Element
@@ -599,5 +600,392 @@ theorem getArrays_lengths_are_points_reachable (h : EHist) (m : Val × ℚ) (t :
 example : ((((EHist.empty.addBluePrint (.int 1) exBP).addArray (.str "raw") (List.replicate 20 0) (.num 10)
       [("m1", List.replicate 20 1)]).validateDurations).eval.validate) = .ok (.num 10, 2) := by
   decide +kernel
+
+/-! ## G11 additions: delayed elements, elements inside subsequences -/
+
+/-- **`RawWF` is preserved by `Element._applyDelays`** (accepted or refused, any delays): every
+    array of a raw-array channel - waveform and markers alike - is padded with the same numbers of
+    zeros in front and behind, so the channel still holds a waveform and arrays of exactly that
+    waveform's length (the raw-array hypothesis of `getArrays_lengths_are_points` for delayed
+    elements). -/
+theorem rawWF_applyDelays (e : Element) (ds : List ℚ) (h : RawWF e) : RawWF (e.applyDelays ds).st :=
+  G11.rawWF_applyDelays e ds h
+
+/-- ... hence it holds for everything `Element.ApiBuilt` produces (the public element API
+    *including* `_applyDelays`, accepted or refused calls alike) -/
+theorem rawWF_apiBuilt (e : Element) (h : Element.ApiBuilt e) : RawWF e := by
+  induction h with
+  | empty => exact rawWF_empty
+  | addBluePrint e ch b _ ih => exact rawWF_addBluePrint _ ch b ih
+  | addArray e ch wfm sr kw _ ih => exact rawWF_addArray _ ch wfm sr kw ih
+  | addFlags e ch fl _ ih => exact rawWF_addFlags _ ch fl ih
+  | changeArg e ch name arg value all _ ih => exact rawWF_withBP _ ch _ ih
+  | changeDuration e ch name dur all _ ih => exact rawWF_withBP _ ch _ ih
+  | validateDurations e _ ih =>
+    unfold validateDurations
+    split <;> exact ih
+  | applyDelays e ds _ ih => exact rawWF_applyDelays e ds ih
+  | copy e _ ih => exact ih
+
+/-- non-vacuity: the mixed example element, delayed by 2 samples on the blueprint channel: the raw
+    channel's arrays are padded to 22 samples each -/
+example : ((exEl 20).applyDelays [1/5, 0]).err = none ∧
+    (((exEl 20).applyDelays [1/5, 0]).st.getArrays false).map (fun out => out.map (fun co => outLens co.2)) =
+      .ok [[22, 22, 22, 22], [22]] := by
+  decide +kernel
+
+/-- **whole-sample blueprints stay whole-sample under `_applyDelays`**: if all resolved durations
+    of `b` are whole numbers of samples and so are the delay (`≥ 0`) and the tail `maxdelay - delay`,
+    then all resolved durations of the delayed blueprint (the delay, the original ones, the tail)
+    are whole numbers of samples. -/
+theorem wholeSamples_delayed (b : BP) (sr delay maxdelay : ℚ) (hsr : b.SR = .num sr) (h0 : 0 ≤ delay)
+    (hD : ∃ n : ℕ, delay * sr = n) (hM : ∃ n : ℕ, (maxdelay - delay) * sr = n) (hw : WholeSamples b) :
+    WholeSamples (delayBP b delay maxdelay).st := by
+  intro sr' ds' hsr' hd' d hdm
+  obtain ⟨_, _, _, _, hS⟩ := delayBP_spec b delay maxdelay
+  rw [hS, hsr] at hsr'
+  cases hsr'
+  obtain ⟨ds, hds, rfl⟩ := G11.delayBP_resolve_inv b delay maxdelay ds' h0 hd'
+  simp only [List.mem_append] at hdm
+  rcases hdm with (hdm | hdm) | hdm
+  · split at hdm
+    · simp only [List.mem_singleton] at hdm; subst hdm; exact hD
+    · cases hdm
+  · exact hw sr ds hsr hds d hdm
+  · split at hdm
+    · simp only [List.mem_singleton] at hdm; subst hdm; exact hM
+    · cases hdm
+
+example : WholeSamples (delayBP exBP (1/5) (2/5)).st :=
+  wholeSamples_delayed exBP 10 (1/5) (2/5) rfl (by norm_num) ⟨2, by norm_num⟩ ⟨2, by norm_num⟩ exBP_wholeSamples
+
+/-- **forged length = points for delayed elements** (clause "every channel's forged waveform and
+    markers have exactly Element.points samples", for the elements `Sequence.forge` actually
+    forges): `e` is an element with well-formed raw channels and whole-sample blueprints whose
+    `_applyDelays(ds)` is accepted, the delays being whole numbers of samples at the element's
+    sample rate.  If the delayed element validates and `getArrays` delivers, then `Element.points`
+    of the delayed element returns `p`, the channels are those of `e` in order, and every array
+    delivered for every channel - waveform blocks, both markers, time axis, raw arrays - has exactly
+    `p` samples. -/
+theorem getArrays_lengths_are_points_delayed (e : Element) (ds : List ℚ) (sr : ℚ) (m : Val × ℚ) (t : Bool)
+    (out : Dict Chan ChOut) (hacc : (e.applyDelays ds).err = none)
+    (hsr : e.getSR = .ok (.num sr)) (hsr0 : 0 < sr) (hds : ∀ d ∈ ds, ∃ n : ℕ, d * sr = n)
+    (hwf : RawWF e) (hal : ∀ ent ∈ Dict.vals e.chans, ∀ b, ent.data = .bp b → WholeSamples b)
+    (hv : (e.applyDelays ds).st.validate = .ok m) (hg : (e.applyDelays ds).st.getArrays t = .ok out) :
+    ∃ p : ℤ, (e.applyDelays ds).st.points = .ok p ∧ Dict.keys out = e.channels ∧
+      ∀ co ∈ out, ∀ n ∈ outLens co.2, (n : ℤ) = p := by
+  have hal' : ∀ ent ∈ Dict.vals (e.applyDelays ds).st.chans, ∀ b, ent.data = .bp b → WholeSamples b := by
+    obtain ⟨m0, sr0, hv0, hm0, hlen, hl, hall⟩ := g4_applyDelays_getElem e ds hacc
+    have hsr' : sr0 = sr := by
+      unfold Element.getSR at hsr
+      rw [hv0] at hsr
+      simp only [Except.map, Except.ok.injEq] at hsr
+      rw [hm0] at hsr
+      cases hsr; rfl
+    subst hsr'
+    intro ent hent b' hb'
+    unfold Dict.vals at hent
+    obtain ⟨q, hq, rfl⟩ := List.mem_map.mp hent
+    obtain ⟨k, hk, rfl⟩ := List.getElem_of_mem hq
+    obtain ⟨_, hde⟩ := hall k (by omega) hk (by omega)
+    obtain ⟨hbp, harr, hnb⟩ := g4_dEnt_data _ _ _ _ _ hde
+    have hke : k < e.chans.length := by omega
+    have hmem : (e.chans[k]).2 ∈ Dict.vals e.chans := List.mem_map_of_mem (List.getElem_mem _)
+    have hkd : k < ds.length := by omega
+    have hcs := (g4_validate_SR e m0 hv0).2 _ (List.getElem_mem hke)
+    generalize (e.chans[k]).2 = ent0 at hbp harr hnb hmem hcs
+    obtain ⟨dat, fl⟩ := ent0
+    cases dat with
+    | bp b =>
+      rw [hbp b rfl] at hb'
+      simp only [ChData.bp.injEq] at hb'
+      subst hb'
+      have hbsr : b.SR = .num sr0 := by
+        simp only [chanSR, hm0, Except.ok.injEq] at hcs
+        exact hcs
+      have hDk := hds ds[k] (List.getElem_mem hkd)
+      have hne : ds ≠ [] := by intro h; rw [h] at hkd; simp at hkd
+      exact wholeSamples_delayed b sr0 ds[k] (maxR ds) hbsr (G11.whole_nonneg sr0 _ hsr0 hDk) hDk
+        (G11.whole_sub sr0 _ _ hsr0 hDk (hds _ (Paths.maxR_mem ds hne)) (Paths.le_maxR ds _ (List.getElem_mem hkd)))
+        (hal _ hmem b rfl)
+    | arr a0 s0 => rw [harr a0 s0 rfl] at hb'; cases hb'
+    | broken => exact absurd rfl hnb
+  obtain ⟨p, hp, hk, hl⟩ := getArrays_lengths_are_points _ m t out hv hg (rawWF_applyDelays e ds hwf) hal'
+  refine ⟨p, hp, ?_, hl⟩
+  rw [hk]
+  exact Element.g4_applyDelays_keys e ds
+
+/-- non-vacuity: the mixed example element with delays of 2 and 0 samples satisfies every
+    hypothesis; the delayed element validates and everything delivered has 22 samples -/
+example : ((exEl 20).applyDelays [1/5, 0]).err = none ∧ (exEl 20).getSR = .ok (.num 10) ∧
+    ((1 : ℚ) / 5) * 10 = (2 : ℕ) ∧ (0 : ℚ) * 10 = (0 : ℕ) ∧
+    ((exEl 20).applyDelays [1/5, 0]).st.validate = .ok (.num 10, 11/5) ∧
+    ((exEl 20).applyDelays [1/5, 0]).st.points = .ok 22 ∧
+    (((exEl 20).applyDelays [1/5, 0]).st.getArrays true).map (fun out => out.map (fun co => outLens co.2)) =
+      .ok [[22, 22, 22, 22], [22, 22]] := by
+  refine ⟨by decide +kernel, by decide +kernel, by norm_num, by norm_num, by decide +kernel, by decide +kernel,
+    by decide +kernel⟩
+
+/-- the point count of a delayed whole-sample blueprint is the original one plus the `M = maxdelay·SR`
+    samples of padding -/
+theorem delayed_points (b : BP) (sr delay maxdelay : ℚ) (M : ℕ) (hsr : b.SR = .num sr) (h0 : 0 ≤ delay)
+    (hle : delay ≤ maxdelay) (hM : maxdelay * sr = M) (hw : WholeSamples b) (p' : ℤ)
+    (hp' : (delayBP b delay maxdelay).st.points = .ok p') : ∃ p, b.points = .ok p ∧ p' = p + M := by
+  obtain ⟨_, _, _, _, hS⟩ := delayBP_spec b delay maxdelay
+  simp only [BP.points, hS, hsr] at hp'
+  cases hr : (delayBP b delay maxdelay).st.resolveWaits with
+  | error er => rw [hr] at hp'; simp [Except.map] at hp'
+  | ok ds' =>
+    rw [hr] at hp'
+    simp only [Except.map, Except.ok.injEq] at hp'
+    obtain ⟨ds, hds, rfl⟩ := G11.delayBP_resolve_inv b delay maxdelay ds' h0 hr
+    refine ⟨rhe (sumR ds * sr), by simp [BP.points, hsr, hds, Except.map], ?_⟩
+    have hsum : sumR ((if 0 < delay then [delay] else []) ++ ds ++
+        (if 0 < maxdelay - delay then [maxdelay - delay] else [])) = sumR ds + maxdelay := by
+      rw [sumR_append, sumR_append]
+      have e1 : sumR (if 0 < delay then [delay] else []) = delay := by
+        by_cases hp : 0 < delay
+        · simp [hp, sumR]
+        · have : delay = 0 := le_antisymm (not_lt.mp hp) h0
+          rw [if_neg hp, this]; simp [sumR]
+      have e2 : sumR (if 0 < maxdelay - delay then [maxdelay - delay] else []) = maxdelay - delay := by
+        by_cases hp : 0 < maxdelay - delay
+        · simp [hp, sumR]
+        · have : maxdelay - delay = 0 := le_antisymm (not_lt.mp hp) (by linarith)
+          rw [if_neg hp, this]; simp [sumR]
+      rw [e1, e2]; ring
+    have hK := aligned_counts sr ds (hw sr ds hsr hds)
+    rw [← hp', hsum, add_mul, hM, ← hK]
+    have h1 : rhe (((sumN (ds.map (fun d => (rhe (d * sr)).toNat)) : ℕ) : ℚ) + (M : ℚ)) =
+        ((sumN (ds.map (fun d => (rhe (d * sr)).toNat)) + M : ℕ) : ℤ) := by
+      exact_mod_cast rhe_int ((sumN (ds.map (fun d => (rhe (d * sr)).toNat)) + M : ℕ) : ℤ)
+    have h2 : rhe (((sumN (ds.map (fun d => (rhe (d * sr)).toNat)) : ℕ) : ℚ)) =
+        ((sumN (ds.map (fun d => (rhe (d * sr)).toNat)) : ℕ) : ℤ) := by
+      exact_mod_cast rhe_int ((sumN (ds.map (fun d => (rhe (d * sr)).toNat)) : ℕ) : ℤ)
+    rw [h1, h2]
+    push_cast
+    ring
+
+/-- the two paddings of a raw-array channel add up to the `M = maxdelay·SR` samples -/
+theorem pad_counts (sr x mx : ℚ) (M : ℕ) (hsr0 : 0 < sr) (hx : ∃ n : ℕ, x * sr = n) (hM : mx * sr = M)
+    (hle : x ≤ mx) : (rhe (x * sr)).toNat + (rhe ((mx - x) * sr)).toNat = M := by
+  obtain ⟨k, hk⟩ := G11.whole_sub sr x mx hsr0 hx ⟨M, hM⟩ hle
+  obtain ⟨n, hn⟩ := hx
+  have hsum : k + n = M := by
+    have : (k : ℚ) + (n : ℚ) = (M : ℚ) := by rw [← hk, ← hn, ← hM]; ring
+    exact_mod_cast this
+  have e1 : rhe (x * sr) = (n : ℤ) := by rw [hn]; exact_mod_cast rhe_int (n : ℤ)
+  have e2 : rhe ((mx - x) * sr) = (k : ℤ) := by rw [hk]; exact_mod_cast rhe_int (k : ℤ)
+  rw [e1, e2]
+  simp only [Int.toNat_natCast]
+  omega
+
+/-- **every array of a delayed element has `Element.points + maxdelay·SR` samples** - without
+    assuming that the delayed element validates.  `e` validates (sample rate `sr > 0`), has
+    well-formed raw channels and whole-sample blueprints; `_applyDelays(ds)` with whole-sample delays
+    is accepted, `M = max(ds)·SR`.  Whenever `getArrays` of the delayed element delivers, every array
+    of every channel - waveform blocks, markers, time axis, padded raw arrays - has exactly
+    `p + M` samples, `p` being `Element.points` of the *undelayed* element: all channels get the
+    common length `original + maxdelay·SR`. -/
+theorem getArrays_lengths_delayed (e : Element) (ds : List ℚ) (sr d : ℚ) (t : Bool) (out : Dict Chan ChOut) (M : ℕ)
+    (hv : e.validate = .ok (.num sr, d)) (hsr0 : 0 < sr) (hacc : (e.applyDelays ds).err = none)
+    (hds : ∀ x ∈ ds, ∃ n : ℕ, x * sr = n) (hM : maxR ds * sr = M)
+    (hwf : RawWF e) (hal : ∀ ent ∈ Dict.vals e.chans, ∀ b, ent.data = .bp b → WholeSamples b)
+    (hg : (e.applyDelays ds).st.getArrays t = .ok out) :
+    ∃ p : ℤ, e.points = .ok p ∧ Dict.keys out = e.channels ∧
+      ∀ co ∈ out, ∀ n ∈ outLens co.2, (n : ℤ) = p + M := by
+  obtain ⟨p, hall, hp, _⟩ := validate_ok_channels e _ d hv
+  obtain ⟨m0, sr0, hv0, hm0, hlen, hl, hde⟩ := g4_applyDelays_getElem e ds hacc
+  have hsr' : sr0 = sr := by
+    rw [hv] at hv0
+    cases hv0
+    simp only [Val.num.injEq] at hm0
+    exact hm0.symm
+  subst hsr'
+  refine ⟨p, hp, ?_, ?_⟩
+  · rw [getArrays_channels _ t out hg]
+    exact Element.g4_applyDelays_keys e ds
+  obtain ⟨hlo, hpt⟩ := getArrays_pointwise _ t out hg
+  intro co hco n hn
+  obtain ⟨i, hi, rfl⟩ := List.getElem_of_mem hco
+  have hi' : i < (e.applyDelays ds).st.chans.length := by omega
+  have hie : i < e.chans.length := by omega
+  have hid : i < ds.length := by omega
+  obtain ⟨_, hout⟩ := hpt i hi' hi
+  obtain ⟨_, hdi⟩ := hde i hie hi' hid
+  obtain ⟨hbp, harr, hnb⟩ := g4_dEnt_data _ _ _ _ _ hdi
+  have hfl := g4_dEnt_flags _ _ _ _ _ hdi
+  have hmem : (e.chans[i]).2 ∈ Dict.vals e.chans := List.mem_map_of_mem (List.getElem_mem _)
+  obtain ⟨hcs, hcp⟩ := hall _ hmem
+  have hDi := hds ds[i] (List.getElem_mem hid)
+  have hlei : ds[i] ≤ maxR ds := Paths.le_maxR ds _ (List.getElem_mem hid)
+  obtain ⟨_, _, o3, o4, _⟩ := g4_chanOut_spec t _ _ hout
+  generalize (e.chans[i]).2 = ent0 at hbp harr hnb hmem hcs hcp
+  obtain ⟨dat, fl0⟩ := ent0
+  cases dat with
+  | bp b =>
+    obtain ⟨f', hf', ho⟩ := o3 _ (hbp b rfl)
+    rw [ho] at hn
+    have hbsr : b.SR = .num sr0 := by
+      simp only [chanSR, Except.ok.injEq] at hcs
+      exact hcs
+    have h0 := G11.whole_nonneg sr0 _ hsr0 hDi
+    have hw' := wholeSamples_delayed b sr0 ds[i] (maxR ds) hbsr h0 hDi
+      (G11.whole_sub sr0 _ _ hsr0 hDi ⟨M, hM⟩ hlei) (hal _ hmem b rfl)
+    obtain ⟨sr1, ds', _, hsr1, hd', _, _, _⟩ := (forge_ok_iff _ f').mp hf'
+    have hS : (delayBP b ds[i] (maxR ds)).st.SR = .num sr0 := by
+      rw [(delayBP_spec b ds[i] (maxR ds)).2.2.2.2, hbsr]
+    have : sr1 = sr0 := by rw [hS] at hsr1; cases hsr1; rfl
+    subst this
+    obtain ⟨hpts', h1, h2, h3⟩ := forged_length_is_points _ f' sr1 ds' hf' hS hd' (hw' sr1 ds' hS hd')
+    obtain ⟨p0, hp0, hN⟩ := delayed_points b sr1 ds[i] (maxR ds) M hbsr h0 hlei hM (hal _ hmem b rfl) _ hpts'
+    simp only [chanPoints] at hcp
+    rw [hcp] at hp0
+    cases hp0
+    simp only [outLens, List.mem_cons, List.not_mem_nil, or_false] at hn
+    rcases hn with rfl | rfl | rfl | rfl
+    · rw [h3]; exact hN
+    · rw [h1]; exact hN
+    · rw [h2]; exact hN
+    · exact hN
+  | arr a sv =>
+    obtain ⟨tm, ho⟩ := o4 _ _ (harr a sv rfl)
+    have hawf := hwf _ hmem a sv rfl
+    obtain ⟨⟨w0, hw0⟩, hlens⟩ := hawf
+    simp only [chanPoints, Except.ok.injEq] at hcp
+    have hpad := pad_counts sr0 ds[i] (maxR ds) M hsr0 hDi hM hlei
+    have hAL := G11.arrLen_padAll (rhe (ds[i] * sr0)).toNat (rhe ((maxR ds - ds[i]) * sr0)).toNat a w0 hw0
+    -- the time axis, if any, has the padded waveform's length
+    have htm : ∀ x s, tm = some (x, s) →
+        x = arrLen (Paths.padAll (rhe (ds[i] * sr0)).toNat (rhe ((maxR ds - ds[i]) * sr0)).toNat a) := by
+      intro x s htm
+      have hco := hout
+      rw [ho, htm] at hco
+      have hdat := harr a sv rfl
+      generalize ((e.applyDelays ds).st.chans[i]).2 = y at hco hdat
+      obtain ⟨yd, yf⟩ := y
+      simp only at hdat
+      subst hdat
+      simp only [chanOut] at hco
+      split at hco
+      · split at hco
+        · split at hco
+          · simp at hco
+          · simp only [Except.ok.injEq, ChOut.arrays.injEq, Option.some.injEq, Prod.mk.injEq] at hco
+            exact hco.2.2.1.symm
+        · simp at hco
+      · simp at hco
+    rw [ho] at hn
+    simp only [outLens, List.mem_append, List.mem_map] at hn
+    rcases hn with ⟨q, hq, rfl⟩ | hn
+    · unfold Paths.padAll at hq
+      obtain ⟨q0, hq0, rfl⟩ := List.mem_map.mp hq
+      simp only [padArr_length]
+      rw [hlens q0 hq0]
+      have : (arrLen a : ℤ) = p := hcp
+      omega
+    · cases tm with
+      | none => simp at hn
+      | some xs =>
+        obtain ⟨x, s⟩ := xs
+        simp only [List.mem_cons, List.not_mem_nil, or_false] at hn
+        rw [hn, htm x s rfl, hAL]
+        have : (arrLen a : ℤ) = p := hcp
+        omega
+  | broken => exact absurd rfl hnb
+
+/-- non-vacuity: the mixed example element (20 points) with delays of 2 and 0 samples, `M = 2`:
+    everything delivered has 22 samples -/
+example : (exEl 20).validate = .ok (.num 10, 2) ∧ ((exEl 20).applyDelays [1/5, 0]).err = none ∧
+    ((1 : ℚ) / 5) * 10 = (2 : ℕ) ∧ (0 : ℚ) * 10 = (0 : ℕ) ∧ maxR [1/5, 0] * 10 = (2 : ℕ) ∧
+    (exEl 20).points = .ok 20 ∧
+    (((exEl 20).applyDelays [1/5, 0]).st.getArrays true).map (fun out => out.map (fun co => outLens co.2)) =
+      .ok [[22, 22, 22, 22], [22, 22]] := by
+  refine ⟨by decide +kernel, by decide +kernel, by norm_num, by norm_num, by decide +kernel, by decide +kernel,
+    by decide +kernel⟩
+
+/-! ### "a sequence never accepts an element that fails validation", inside subsequences -/
+
+/-- **what `addSubSequence` checks** - and what it does not: the call is accepted exactly when the
+    argument holds elements only (no nesting, `elementsOnly`) and has the parent's sample rate.
+    Neither condition looks at `validateDurations` of the inner elements: `addSubSequence` itself
+    validates nothing. -/
+theorem addSubSequence_accepts_iff (s : Sequence) (pos : ℤ) (sub : Sequence) :
+    (s.addSubSequence pos sub).err = none ↔
+      (Sequence.elementsOnly sub.data).isSome = true ∧ sub.getSR = s.getSR := by
+  unfold Sequence.addSubSequence
+  cases hd : Sequence.elementsOnly sub.data with
+  | none => simp
+  | some d =>
+    by_cases hs : sub.getSR = s.getSR
+    · simp [hs]
+    · simp [hs]
+
+/-- an element that fails validation (a 20-sample blueprint beside a 19-sample raw array), put
+    into a sequence value directly - not through `addElement`, which would refuse it -/
+def badSub : Sequence :=
+  { data := [(1, .el (exEl 19))], sequencing := [(1, Sequence.defaultSeqEl)],
+    awgspecs := [("SR", .val (.num 10))] }
+
+/-- **`addSubSequence` does not validate the inner elements** (witness): a sequence value holding
+    an element that fails validation with ElementDurationError is accepted as a subsequence, and
+    the failing element is stored.  (Such a value cannot be produced by the public API, see
+    `built_sequence_elements_validated`; in the implementation it arises when a stored element is
+    mutated in place after `addElement`.) -/
+theorem addSubSequence_does_not_validate :
+    ∃ (s sub : Sequence) (pos p : ℤ) (e : Element) (stored : SubSeq),
+      Dict.get? sub.data p = some (.el e) ∧ e.validate = .error .elemdur ∧
+      (s.addSubSequence pos sub).err = none ∧
+      Dict.get? (s.addSubSequence pos sub).st.data pos = some (.sub stored) ∧
+      Dict.get? stored.data p = some e := by
+  refine ⟨SeqCore.setSR {} (.num 10), badSub, 1, 1, exEl 19,
+    Sequence.storedSub badSub [(1, exEl 19)], ?_, ?_, ?_, ?_, ?_⟩
+  · rfl
+  · decide +kernel
+  · decide +kernel
+  · have h1 : Sequence.elementsOnly badSub.data = some [(1, exEl 19)] := rfl
+    have h2 : ¬ (badSub.getSR ≠ (SeqCore.setSR ({} : Sequence) (.num 10)).getSR) := by decide +kernel
+    simp only [Sequence.addSubSequence, h1, h2, if_false]
+    exact Dict.get?_upsert_self _ _ _
+  · rfl
+
+/-- **lifted to everything the public API builds**: in a sequence built through the public
+    sequence API (`Sequence.ApiBuilt`: `addElement` of API-built elements, `addSubSequence` of
+    API-built sequences, settings and sequencing setters, `copy`, `+`), every stored element - at an
+    element position *and inside every stored subsequence* - passes `validateDurations`: the
+    subsequence argument got its elements through `addElement`, which validated them. -/
+theorem built_sequence_elements_validated (s : Sequence) (h : Sequence.ApiBuilt s) :
+    (∀ p e, Dict.get? s.data p = some (.el e) → ∃ m, e.validate = .ok m) ∧
+    (∀ p (sub : SubSeq) q e, Dict.get? s.data p = some (.sub sub) → Dict.get? sub.data q = some e →
+      ∃ m, e.validate = .ok m) := by
+  have hi := G11.apiBuilt_innerValidated h
+  refine ⟨fun p e hg => ?_, fun p sub q e hg hq => ?_⟩
+  · exact (hi _ (Dict.mem_of_get?_eq_some p _ hg)).1 e rfl
+  · exact (hi _ (Dict.mem_of_get?_eq_some p _ hg)).2 sub rfl _ (Dict.mem_of_get?_eq_some q e hq)
+
+/-- the same for one `addSubSequence` call: if parent and argument are API-built, every element
+    of the stored subsequence validates -/
+theorem addSubSequence_inner_validated (s sub : Sequence) (pos : ℤ) (hs : Sequence.ApiBuilt s)
+    (hsub : Sequence.ApiBuilt sub) (stored : SubSeq)
+    (hg : Dict.get? (s.addSubSequence pos sub).st.data pos = some (.sub stored)) (q : ℤ) (e : Element)
+    (hq : Dict.get? stored.data q = some e) : ∃ m, e.validate = .ok m :=
+  (built_sequence_elements_validated _ (.addSubSequence s pos sub hs hsub)).2 pos stored q e hg hq
+
+/-- non-vacuity: an API-built sequence holding an API-built subsequence with the mixed element -/
+def exBuiltEl : Element :=
+  ((({} : Element).addBluePrint (.int 1) exBP).st.addArray (.str "raw") (List.replicate 20 0) (.num 10) []).st
+def exBuiltSub : Sequence := (Sequence.addElement (SeqCore.setSR {} (.num 10)) 1 exBuiltEl).st
+def exBuiltSeq : Sequence := (Sequence.addSubSequence (SeqCore.setSR {} (.num 10)) 1 exBuiltSub).st
+
+/-- non-vacuity (C06, subsequences): the example sequence is built through the public API -/
+theorem exBuiltSeq_built : Sequence.ApiBuilt exBuiltSeq :=
+  .addSubSequence _ _ _ (.setSpec _ _ _ .empty)
+    (.addElement _ _ _ (.setSpec _ _ _ .empty) (.addArray _ _ _ _ _ (.addBluePrint _ _ _ .empty)))
+
+example : (Sequence.addSubSequence (SeqCore.setSR {} (.num 10)) 1 exBuiltSub).err = none ∧
+    (match Dict.get? exBuiltSeq.data 1 with
+      | some (.sub st) => (Dict.get? st.data 1).map (fun e => e.validate)
+      | _ => none) = some (.ok (.num 10, 2)) := by
+  constructor <;> decide +kernel
 
 end BB.C06
